@@ -1,8 +1,237 @@
-(* C20 - statements only (under construction). *)
-Require Import List Bool Arith.
-Require Import IW.CC.Lts IW.CC.Stw.
+(* C20 - task executors (iwstw.c single-thread worker, iwtp.c thread pool): statements only.
+   Models: CC/Stw.v, CC/Tp.v (labelled transition systems, one transition per lock/unlock/wait/wake/signal/queue
+   edit/callback; any number of client threads; waits may return spuriously).  R c s = "s is reachable from the
+   initial state by some interleaving"; every theorem below quantifies over ALL reachable states / transitions.
+   Stw.recheck / Tp.chk select the code variant: true = current code (with fixes exec-stw-recheck / exec-tp-shutdown),
+   false = the code as found, for which the liveness half is refuted by the real event traces below. *)
+Require Import List Bool Arith Lia.
+Require Import IW.CC.Lts IW.CC.Lts_proofs IW.CC.Stw IW.CC.Stw_proofs IW.CC.Tp IW.CC.Tp_proofs.
 Import ListNotations.
 
-Theorem C20_stub : forall c, Stw.step c Stw.init Stw.W ELock <> None.
-Proof. intros c. discriminate. Qed.
-Print Assumptions C20_stub.
+(* ---------------- single-thread worker ---------------- *)
+
+(* every accepted task was linked; every linked task is in exactly one of queued / held by the worker (running) / done /
+   dropped by shutdown / dropped by schedule_only *)
+Theorem C20_stw_accepted_partition : forall c s, Stw_proofs.R c s ->
+  (forall x, In x (Stw.acc s) -> In x (Stw.enq s)) /\
+  (forall x, In x (Stw.enq s) <-> In x (Stw.queue s ++ Stw.held s ++ Stw.done s ++ Stw.disc s ++ Stw.repl s)) /\
+  NoDup (Stw.queue s ++ Stw.held s ++ Stw.done s ++ Stw.disc s ++ Stw.repl s) /\ NoDup (Stw.enq s).
+Proof. exact Stw_proofs.accepted_partition. Qed.
+Print Assumptions C20_stw_accepted_partition.
+
+(* ... and never moves backwards: queued -> held -> done, queued -> dropped; done and dropped are final *)
+Theorem C20_stw_status_monotone : forall c s t e s', Stw.step c s t e = Some s' -> forall x,
+  (In x (Stw.done s) -> In x (Stw.done s')) /\ (In x (Stw.disc s) -> In x (Stw.disc s')) /\
+  (In x (Stw.repl s) -> In x (Stw.repl s')) /\
+  (In x (Stw.held s) -> In x (Stw.held s') \/ In x (Stw.done s')) /\
+  (In x (Stw.queue s) -> In x (Stw.queue s') \/ In x (Stw.held s') \/ In x (Stw.disc s') \/ In x (Stw.repl s')).
+Proof. exact Stw_proofs.status_monotone. Qed.
+Print Assumptions C20_stw_status_monotone.
+
+Theorem C20_stw_executed_at_most_once : forall c s, Stw_proofs.R c s -> NoDup (Stw.started s).
+Proof. exact Stw_proofs.executed_at_most_once. Qed.
+Print Assumptions C20_stw_executed_at_most_once.
+
+(* FIFO: the sequence of tasks whose fn was entered is a prefix of the linked tasks minus the dropped ones, in link order;
+   a dropped task never starts *)
+Theorem C20_stw_fifo : forall c s, Stw_proofs.R c s ->
+  (exists rest, filter (Stw_proofs.keep (Stw.disc s ++ Stw.repl s)) (Stw.enq s) = Stw.started s ++ rest) /\
+  (forall x, In x (Stw.started s) -> ~ In x (Stw.disc s ++ Stw.repl s)).
+Proof. exact Stw_proofs.stw_fifo. Qed.
+Print Assumptions C20_stw_fifo.
+
+Theorem C20_stw_limit_respected : forall c s, Stw_proofs.R c s -> Stw.limit c > 0 -> length (Stw.queue s) <= Stw.limit c.
+Proof. exact Stw_proofs.limit_respected. Qed.
+Print Assumptions C20_stw_limit_respected.
+
+Theorem C20_stw_full_queue_rejects_or_blocks : forall c s t e s', Stw.step c s t e = Some s' -> t <> Stw.W ->
+  Stw.fn (Stw.cl s t) = 0 -> Stw.cp (Stw.cl s t) = Stw.Locked \/ Stw.cp (Stw.cl s t) = Stw.Woken ->
+  Stw.shut s = false -> Stw.full c s = true ->
+  (Stw.blocking c = false ->
+     e = EUnlock /\ Stw.cp (Stw.cl s' t) = Stw.Ret RC_OVERFLOW false /\ Stw.enq s' = Stw.enq s) /\
+  (Stw.blocking c = true ->
+     e = EWait 1 /\ Stw.cp (Stw.cl s' t) = Stw.CWait /\ In t (Stw.waitq s') /\ Stw.blocked s' = true /\ Stw.enq s' = Stw.enq s).
+Proof. exact Stw_proofs.full_queue_rejects_or_blocks. Qed.
+Print Assumptions C20_stw_full_queue_rejects_or_blocks.
+
+(* the worker is never parked on `cond` while the queue is non-empty and nobody is about to broadcast *)
+Theorem C20_stw_no_lost_wakeup : forall c s, Stw_proofs.R c s -> Stw.owner s = None -> In Stw.W (Stw.waitc s) -> Stw.queue s = [].
+Proof. exact Stw_proofs.no_lost_wakeup. Qed.
+Print Assumptions C20_stw_no_lost_wakeup.
+
+(* discard: a dropped task is reported/dropped once, was linked, and never started, ran, or stayed queued *)
+Theorem C20_stw_discarded_never_started : forall c s, Stw_proofs.R c s ->
+  NoDup (Stw.disc s ++ Stw.repl s) /\
+  forall x, In x (Stw.disc s ++ Stw.repl s) ->
+    In x (Stw.enq s) /\ ~ In x (Stw.started s) /\ ~ In x (Stw.done s) /\ ~ In x (Stw.queue s) /\ ~ In x (Stw.held s).
+Proof. exact Stw_proofs.discarded_never_started. Qed.
+Print Assumptions C20_stw_discarded_never_started.
+
+(* iwstw_shutdown(false): each discard-callback transition reports the head of the queue; the flag is set only when the
+   whole queue has been dropped (and, with a callback, reported) *)
+Theorem C20_stw_shutdown_discard_step : forall c s t x s', Stw.step c s t (EDiscard x) = Some s' -> Stw.fn (Stw.cl s t) = 3 ->
+  Stw.cp (Stw.cl s t) = Stw.Locked \/ Stw.cp (Stw.cl s t) = Stw.DDisc ->
+  t <> Stw.W /\ Stw.has_cb c = true /\ Stw.queue s = x :: Stw.queue s' /\ Stw.disc s' = Stw.disc s ++ [x] /\
+  Stw.shut s' = Stw.shut s.
+Proof. exact Stw_proofs.shutdown_discard_step. Qed.
+Print Assumptions C20_stw_shutdown_discard_step.
+
+Theorem C20_stw_shutdown_nowait_discards : forall c s t s', Stw.step c s t (EBcast 0) = Some s' -> t <> Stw.W ->
+  Stw.fn (Stw.cl s t) = 3 ->
+  (Stw.cp (Stw.cl s t) = Stw.Locked /\ Stw.wf (Stw.cl s t) = false /\ Stw.shut s = false) \/ Stw.cp (Stw.cl s t) = Stw.DDisc ->
+  Stw.queue s' = [] /\ Stw.disc s' = Stw.disc s ++ Stw.queue s /\ Stw.shut s' = true /\ Stw.shut_wait s' = false /\
+  (Stw.has_cb c = true -> Stw.queue s = []).
+Proof. exact Stw_proofs.shutdown_nowait_flag_step. Qed.
+Print Assumptions C20_stw_shutdown_nowait_discards.
+
+(* current code (re-check after the wait loop): once the worker has left its loop nothing is queued any more, and when
+   iwstw_shutdown has joined the worker every accepted task has run or was dropped; a waiting shutdown drops nothing *)
+Theorem C20_stw_worker_gone_all_settled : forall c s, Stw_proofs.R c s -> Stw.recheck c = true ->
+  Stw.wpc s = Stw.WExit \/ Stw.wpc s = Stw.WDead ->
+  Stw.shut s = true /\ Stw.queue s = [] /\
+  forall x, In x (Stw.enq s) -> In x (Stw.done s) \/ In x (Stw.disc s) \/ In x (Stw.repl s).
+Proof. exact Stw_proofs.worker_gone_all_settled. Qed.
+Print Assumptions C20_stw_worker_gone_all_settled.
+
+Theorem C20_stw_shutdown_wait_drains : forall c s t, Stw_proofs.R c s -> Stw.recheck c = true -> t <> Stw.W ->
+  Stw.cp (Stw.cl s t) = Stw.DJoined \/ Stw.cp (Stw.cl s t) = Stw.DFreed ->
+  (forall x, In x (Stw.acc s) -> In x (Stw.done s) \/ In x (Stw.disc s) \/ In x (Stw.repl s)) /\
+  (Stw.shut_wait s = true -> Stw.disc s = [] /\ forall x, In x (Stw.acc s) -> In x (Stw.done s) \/ In x (Stw.repl s)).
+Proof. exact Stw_proofs.shutdown_wait_drains. Qed.
+Print Assumptions C20_stw_shutdown_wait_drains.
+
+(* liveness half of accepted_partition, as a statement about terminal states *)
+Theorem C20_stw_accepted_eventually : forall c s, Stw_proofs.R c s -> Stw.recheck c = true -> Stw.w_dead s = true ->
+  forall x, In x (Stw.acc s) -> In x (Stw.done s) \/ In x (Stw.disc s) \/ In x (Stw.repl s).
+Proof. exact Stw_proofs.accepted_eventually. Qed.
+Print Assumptions C20_stw_accepted_eventually.
+
+(* the code as found (recheck = false) does NOT have it: the statement
+     forall c s, R c s -> w_dead s = true -> forall x, In x (acc s) -> In x (done s) \/ In x (disc s) \/ In x (repl s)
+   is refuted by the event trace recorded from the unfixed implementation (directed scenario
+   stw-blocked-submitter-after-shutdown of checks/C20.py) *)
+Theorem C20_stw_accepted_eventually_refuted_without_recheck : exists s,
+  run Stw.st (Stw.step Stw_proofs.lost_cfg) Stw.init Stw_proofs.lost_trace = Some s /\ Stw.w_dead s = true /\
+  Stw.cl_idle s 10 = true /\ Stw.cl_idle s 20 = true /\
+  In 2 (Stw.acc s) /\ ~ In 2 (Stw.done s) /\ ~ In 2 (Stw.disc s) /\ ~ In 2 (Stw.repl s) /\ Stw.queue s = [2] /\ Stw.freed s = true.
+Proof. exact Stw_proofs.accepted_eventually_refuted. Qed.
+Print Assumptions C20_stw_accepted_eventually_refuted_without_recheck.
+
+(* ---------------- thread pool ---------------- *)
+
+Theorem C20_tp_accepted_partition : forall c s, Tp_proofs.R c s ->
+  (forall x, In x (Tp.acc s) -> In x (Tp.enq s)) /\
+  (forall x, In x (Tp.enq s) <-> In x (Tp.queue s ++ Tp.held c s ++ Tp.done s ++ Tp.disc s)) /\
+  NoDup (Tp.queue s ++ Tp.held c s ++ Tp.done s ++ Tp.disc s) /\ NoDup (Tp.enq s).
+Proof. exact Tp_proofs.accepted_partition. Qed.
+Print Assumptions C20_tp_accepted_partition.
+
+Theorem C20_tp_limit_respected : forall c s, Tp_proofs.R c s -> Tp.limit c > 0 ->
+  length (Tp.queue s) <= Tp.limit c /\ Tp.qsize s = length (Tp.queue s).
+Proof. exact Tp_proofs.limit_respected. Qed.
+Print Assumptions C20_tp_limit_respected.
+
+(* while the queue is non-empty and the mutex is free, some pool thread is not parked *)
+Theorem C20_tp_no_lost_wakeup : forall c s, Tp.nthreads c > 0 -> Tp_proofs.R c s -> Tp.owner s = None -> Tp.queue s <> [] ->
+  exists w, w < Tp.nthreads c /\ ~ In w (Tp.waitc s).
+Proof. exact Tp_proofs.no_lost_wakeup. Qed.
+Print Assumptions C20_tp_no_lost_wakeup.
+
+(* current code (shutdown check in iwtp_schedule): when iwtp_shutdown has joined every worker, every linked task has run
+   or was dropped by a non-waiting shutdown; a waiting shutdown returns with every accepted task done *)
+Theorem C20_tp_shutdown_wait_drains : forall c s t, Tp_proofs.R c s -> Tp.chk c = true -> Tp.nthreads c > 0 ->
+  Tp.pc (Tp.th s t) = Tp.QFreed ->
+  Tp.shut s = true /\ Tp.queue s = [] /\
+  (forall x, In x (Tp.enq s) -> In x (Tp.done s) \/ In x (Tp.disc s)) /\
+  (Tp.shut_wait s = true -> Tp.disc s = [] /\ forall x, In x (Tp.acc s) -> In x (Tp.done s)).
+Proof. exact Tp_proofs.shutdown_wait_drains. Qed.
+Print Assumptions C20_tp_shutdown_wait_drains.
+
+(* the code as found (chk = false) does not: real event trace of directed scenario tp-schedule-during-shutdown *)
+Theorem C20_tp_shutdown_wait_drains_refuted_without_check : exists s,
+  run Tp.st (Tp.step Tp_proofs.lost_cfg) (Tp.init Tp_proofs.lost_cfg) Tp_proofs.lost_trace = Some s /\
+  Tp.pc (Tp.th s 0) = Tp.TDead /\ Tp.pc (Tp.th s 10) = Tp.Idle /\ Tp.pc (Tp.th s 20) = Tp.Idle /\ Tp.shut_wait s = true /\
+  In 0 (Tp.acc s) /\ ~ In 0 (Tp.done s) /\ ~ In 0 (Tp.disc s) /\ Tp.queue s = [0].
+Proof. exact Tp_proofs.shutdown_wait_drains_refuted. Qed.
+Print Assumptions C20_tp_shutdown_wait_drains_refuted_without_check.
+
+(* ---------------- the hypotheses are satisfiable by non-trivial states ---------------- *)
+Definition ex_cfg : Stw.cfg := Stw.mkcfg 1 true true true.
+(* one task running, one queued, a third submitter call blocked on the full queue, then iwstw_shutdown(false) with the
+   re-check: the woken call is refused, the worker is joined *)
+Definition ex_trace : list (tid * ev) :=
+  [(10, ECall 0 0 false); (10, ELock); (10, EEnq 0); (10, EBcast 0); (10, EUnlock); (10, ERet 0 true);
+   (0, ELock); (0, EDeq 0); (0, EUnlock); (0, ERun 0);
+   (10, ECall 0 1 false); (10, ELock); (10, EEnq 1); (10, EBcast 0); (10, EUnlock); (10, ERet 0 true);
+   (10, ECall 0 2 false); (10, ELock); (10, EWait 1);
+   (20, ECall 3 0 false); (20, ELock); (20, EDiscard 1); (20, EBcast 0); (20, EBcast 1); (20, EUnlock);
+   (0, EDone 0); (0, ELock); (0, EUnlock); (0, EExit);
+   (10, EWake 1); (10, EUnlock); (10, ERet 1 false);
+   (20, EJoin 0)].
+
+Lemma ex_reach : forall c tr s, run Stw.st (Stw.step c) Stw.init tr = Some s -> Stw_proofs.R c s.
+Proof. intros c tr s H. exists tr. exact H. Qed.
+
+Example C20_ex_stw_final : exists s, Stw_proofs.R ex_cfg s /\ Stw.recheck ex_cfg = true /\ Stw.cp (Stw.cl s 20) = Stw.DJoined /\
+  Stw.w_dead s = true /\ Stw.acc s = [0; 1] /\ Stw.done s = [0] /\ Stw.disc s = [1] /\ Stw.started s = [0] /\ Stw.enq s = [0; 1] /\
+  Stw.shut_wait s = false.
+Proof.
+  destruct (run Stw.st (Stw.step ex_cfg) Stw.init ex_trace) as [s|] eqn:E; [|vm_compute in E; discriminate].
+  exists s. split; [eapply ex_reach; exact E|]. vm_compute in E. inversion E; subst. vm_compute. repeat split.
+Qed.
+
+(* in the middle: task 0 running, task 1 queued (limit 1 reached), submitter 10 parked on cond_queue, mutex free *)
+Example C20_ex_stw_blocked : exists s, Stw_proofs.R ex_cfg s /\ Stw.limit ex_cfg > 0 /\ Stw.queue s = [1] /\ Stw.held s = [0] /\
+  Stw.waitq s = [10] /\ Stw.owner s = None /\ Stw.full ex_cfg s = true /\ Stw.blocked s = true.
+Proof.
+  destruct (run Stw.st (Stw.step ex_cfg) Stw.init (firstn 19 ex_trace)) as [s|] eqn:E; [|vm_compute in E; discriminate].
+  exists s. split; [eapply ex_reach; exact E|]. vm_compute in E. inversion E; subst. vm_compute. repeat split; lia.
+Qed.
+
+(* the worker parked on `cond` with the mutex free *)
+Example C20_ex_stw_parked : exists s, Stw_proofs.R ex_cfg s /\ Stw.owner s = None /\ In Stw.W (Stw.waitc s) /\ Stw.wpc s = Stw.WWait.
+Proof.
+  destruct (run Stw.st (Stw.step ex_cfg) Stw.init [(0, ELock); (0, EUnlock); (0, ELock); (0, EWait 0)]) as [s|] eqn:E;
+    [|vm_compute in E; discriminate].
+  exists s. split; [eapply ex_reach; exact E|]. vm_compute in E. inversion E; subst. vm_compute. repeat split. left. reflexivity.
+Qed.
+
+(* the transitions named in the step-level theorems exist: discard-callback step and flag step of the non-waiting shutdown *)
+Example C20_ex_stw_discard_steps : exists s s1 s2, Stw_proofs.R ex_cfg s /\
+  Stw.step ex_cfg s 20 (EDiscard 1) = Some s1 /\ Stw.fn (Stw.cl s 20) = 3 /\ Stw.cp (Stw.cl s 20) = Stw.Locked /\
+  Stw.step ex_cfg s1 20 (EBcast 0) = Some s2 /\ Stw.cp (Stw.cl s1 20) = Stw.DDisc /\ Stw.disc s2 = [1] /\ Stw.queue s2 = [].
+Proof.
+  destruct (run Stw.st (Stw.step ex_cfg) Stw.init (firstn 21 ex_trace)) as [s|] eqn:E; [|vm_compute in E; discriminate].
+  destruct (Stw.step ex_cfg s 20 (EDiscard 1)) as [s1|] eqn:E1; [|vm_compute in E; inversion E; subst; vm_compute in E1; discriminate].
+  destruct (Stw.step ex_cfg s1 20 (EBcast 0)) as [s2|] eqn:E2;
+    [|vm_compute in E; inversion E; subst; vm_compute in E1; inversion E1; subst; vm_compute in E2; discriminate].
+  exists s, s1, s2. split; [eapply ex_reach; exact E|].
+  vm_compute in E; inversion E; subst. vm_compute in E1; inversion E1; subst. vm_compute in E2; inversion E2; subst.
+  vm_compute. repeat split.
+Qed.
+
+Definition ex_tp : Tp.cfg := Tp.mkcfg 2 3 1 true.
+Definition ex_tp_trace : list (tid * ev) :=
+  [(0, ELock); (0, EUnlock); (1, ELock); (1, EUnlock);
+   (10, ECall 0 5 false); (10, ELock); (10, EEnq 5); (10, ESignal 0 None); (10, EUnlock); (10, ERet 0 true);
+   (0, ELock); (0, EDeq 5); (0, EUnlock); (0, ERun 5);
+   (11, ECall 0 6 false); (11, ELock); (11, EEnq 6); (11, ESignal 0 None); (11, EUnlock); (11, ERet 0 true);
+   (1, ELock); (1, EDeq 6); (1, EUnlock); (1, ERun 6); (1, EDone 6);
+   (20, ECall 3 0 true); (20, ELock); (20, EBcast 0); (20, EUnlock);
+   (1, ELock); (1, EUnlock); (1, EExit);
+   (0, EDone 5); (0, ELock); (0, EUnlock); (0, EExit);
+   (20, EJoin 0); (20, EJoin 1); (20, EFree)].
+
+Example C20_ex_tp_final : exists s, Tp_proofs.R ex_tp s /\ Tp.chk ex_tp = true /\ Tp.nthreads ex_tp > 0 /\ Tp.limit ex_tp > 0 /\
+  Tp.pc (Tp.th s 20) = Tp.QFreed /\ Tp.shut_wait s = true /\ Tp.acc s = [5; 6] /\ Tp.done s = [6; 5] /\ Tp.enq s = [5; 6].
+Proof.
+  destruct (run Tp.st (Tp.step ex_tp) (Tp.init ex_tp) ex_tp_trace) as [s|] eqn:E; [|vm_compute in E; discriminate].
+  exists s. split; [exists ex_tp_trace; exact E|]. vm_compute in E. inversion E; subst. vm_compute. repeat split; lia.
+Qed.
+
+(* queue non-empty with the mutex free: worker 0 busy, worker 1 not parked *)
+Example C20_ex_tp_queued : exists s, Tp_proofs.R ex_tp s /\ Tp.owner s = None /\ Tp.queue s = [6] /\ Tp.held ex_tp s = [5].
+Proof.
+  destruct (run Tp.st (Tp.step ex_tp) (Tp.init ex_tp) (firstn 20 ex_tp_trace)) as [s|] eqn:E; [|vm_compute in E; discriminate].
+  exists s. split; [exists (firstn 20 ex_tp_trace); exact E|]. vm_compute in E. inversion E; subst. vm_compute. repeat split.
+Qed.
